@@ -2,21 +2,66 @@
 
 MC_LAYER = {"module": "MC_RustFFT.tla", "cfg": "MC_RustFFT.cfg", "cfg_quick": "MC_RustFFT_quick.cfg", "timeout": 900}
 
+NT_PLAN = "a case is non-trivial when n >= 2 (the plan is not the trivial length-0/1 transform); distinct tuples are counted by the harness"
+
 PROPS = {
+    "C01": {
+        "driver": "c01", "level": "model_checking", "mc": [MC_LAYER],
+        "rule": "every (planner kind, f32/f64, n, direction) for n = 1..N plus structured lengths is planned on the real library; each is called "
+                "through all four entry points on a dense vector (error against the double-double reference DFT, judged by TLC against Tol) and on unit "
+                "impulses (whole basis for small n; TLC checks the integer phase identity phase[k] = -+j*k mod n); " + NT_PLAN,
+    },
+    "C02": {
+        "driver": "c02", "level": "exploration",
+        "rule": "every (planner kind, f32/f64, n, direction), eight input families each, relative L2 error against the double-double reference; "
+                "TLC evaluates err <= 16 eps log2(2n) (fixed-point log rounded up) on every completed call; " + NT_PLAN,
+    },
+    "C03": {
+        "driver": "c03", "level": "exploration",
+        "rule": "every (planner kind, f32/f64, n, direction, entry point, chunk count, alignment) call runs with each caller buffer flush against a PROT_NONE "
+                "page (end- and start-aligned), immutable inputs read-only, scratch exactly as advertised, plus the ill-shaped classes; any fault/abort is a Crash "
+                "event for which the specification has no transition; every case counts as non-trivial (each is a distinct memory layout)",
+        "variants": [{"name": "default"}, {"name": "relcheck", "profile": "relcheck"}],
+    },
     "C04": {
-        "driver": "c04",
-        "level": "model_checking",
+        "driver": "c04", "level": "model_checking", "mc": [MC_LAYER],
         "rule": "built sweep: every (planner kind, element type, n, direction) planned and constructed on the real library, "
-                "n=0..N plus structured lengths; plan-only sweep: every (planner, n) plan report; a case is non-trivial when n >= 2 "
-                "(the plan is not the trivial length-0/1 transform); distinct tuples are counted by the harness",
-        "mc": [MC_LAYER],
+                "n=0..N plus structured lengths; plan-only sweep: every (planner, n) plan report; " + NT_PLAN,
     },
     "C05": {
-        "driver": "c05",
-        "level": "model_checking",
+        "driver": "c05", "level": "model_checking", "mc": [MC_LAYER],
         "rule": "advertised scratch of every built (planner, elem, n, dir); plan reports of every (planner, n) for the no-naive-node clause; "
-                "operation counts of the portable planner through a counting element type for every n (two inputs each); "
-                "non-trivial when n >= 2",
-        "mc": [MC_LAYER],
+                "operation counts of the portable planner through a counting element type for every n (two inputs each); " + NT_PLAN,
+    },
+    "C06": {
+        "driver": "c06", "level": "model_checking", "mc": [MC_LAYER],
+        "rule": "every (planner kind, f32/f64, n): both directions planned on one planner in either order, forward-then-inverse and inverse-then-forward "
+                "round trips against n*x, and inverse(x) against conj(forward(conj x)); " + NT_PLAN,
+    },
+    "C07": {
+        "driver": "c07", "level": "model_checking", "mc": [MC_LAYER],
+        "rule": "every (planner kind, f32/f64, n, entry point, k): k-chunk call compared chunk by chunk with the single-chunk result; NaN-poisoned neighbours "
+                "(isolation); non-trivial when k >= 2",
+    },
+    "C08": {
+        "driver": "c08", "level": "model_checking", "mc": [MC_LAYER],
+        "rule": "every (planner kind, f32/f64, n, entry point): reference run with zeroed exact scratch, then runs varying scratch length {adv,+1,+17,x2} and "
+                "initial scratch/output contents {0,NaN,+Inf,-Inf,huge}; output bits compared (hash equality decided by TLC); non-trivial when the variant "
+                "differs from the reference run",
+    },
+    "C09": {
+        "driver": "c09", "level": "model_checking", "mc": [MC_LAYER],
+        "rule": "every (planner kind, f32/f64, n, entry point, shape class): data in {n,kn,1,n-1,n+1,2n-1,2n+1,kn-1,kn+1,0}, output off by 1/n, scratch in "
+                "{0,adv-1,adv,adv+1}; the verdict Well/Ill is computed by TLC from the logged lengths; every case is non-trivial",
+    },
+    "C14": {
+        "driver": "c14", "level": "model_checking", "mc": [MC_LAYER],
+        "rule": "element types: GF(p) (exact; two-pass constant identification; TLC recomputes the DFT itself for n <= 40 in a field p < 2^20), double-double, "
+                "counting, 24-byte wide; SIMD planners must decline each, the automatic planner must construct; every (type, n, direction); " + NT_PLAN,
+    },
+    "C15": {
+        "driver": "c15", "level": "model_checking", "mc": [MC_LAYER],
+        "rule": "every (planner kind, f32/f64, n): immutable-input calls with k in 1..8 and ill-shaped classes; input bits before/after and read-only input pages; "
+                "every case is non-trivial",
     },
 }
